@@ -19,6 +19,7 @@ import (
 	"io"
 	"math/rand"
 	"sort"
+	"strconv"
 	"strings"
 	"bytes"
 	"os"
@@ -860,6 +861,16 @@ func c16ApiHot(f []string) vResult {
 	}
 	n := atomic.AddUint64(&c16ApiSeq, 1)
 	prefix := fmt.Sprintf("/dev/shm/verif_apihot_%d_%d", os.Getpid(), n)
+	if len(f) == 4 {
+		// a prefix of a chosen length (as newClientSession measures it: with "_<pid>" appended): either the configuration is
+		// refused when the manager is created, or every later hand-over finds room for its longer names
+		want := vAtoi(f[3]) - len("_"+strconv.Itoa(os.Getpid()))
+		if want < len(prefix)+1 || want > 240 {
+			res.out = []string{"bad-op"}
+			return res
+		}
+		prefix += "_" + strings.Repeat("x", want-len(prefix)-1)
+	}
 	path := fmt.Sprintf("/tmp/verif_apihot_%d_%d.sock", os.Getpid(), n)
 	c12WarmOnce.Do(func() {
 		w := &c12Run{tags: map[string]bool{}}
@@ -894,6 +905,12 @@ func c16ApiHot(f []string) vResult {
 	sm, err := NewSessionManager(scfg)
 	if err != nil {
 		old.Close()
+		if len(f) == 4 && err == ErrFileNameTooLong {
+			// refused up-front: nothing exists whose hand-over could fail on names
+			os.Remove(path)
+			res.tags = []string{"api-level-hot-restart", "prefix-refused"}
+			return res
+		}
 		setFail("api-call-fails", "NewSessionManager against a running listener: "+err.Error())
 		return res
 	}
@@ -1001,7 +1018,7 @@ func c16ApiHot(f []string) vResult {
 
 func c16Exec(ops []string) vResult {
 	if len(ops) == 1 && strings.HasPrefix(ops[0], "apihot ") {
-		if f := vFields(ops[0]); len(f) == 3 {
+		if f := vFields(ops[0]); len(f) == 3 || len(f) == 4 {
 			return c16ApiHot(f)
 		}
 	}
@@ -1069,6 +1086,10 @@ func c16Exec(ops []string) vResult {
 func c16Gen(r *rand.Rand, tier string, idx int, prop string) []string {
 	if prop == "C16" && idx%300 == 133 {
 		return []string{fmt.Sprintf("apihot %s %d", []string{"file", "memfd"}[r.Intn(2)], 1+r.Intn(3))}
+	}
+	if prop == "C16" && idx%300 == 233 {
+		// prefix lengths around newClientSession's name budget (180 is the longest accepted one)
+		return []string{fmt.Sprintf("apihot %s %d %d", []string{"file", "file", "memfd"}[r.Intn(3)], 1+r.Intn(2), 150+r.Intn(91))}
 	}
 	if prop == "C17" && idx%200 == 77 {
 		return []string{fmt.Sprintf("api %s %d %d", []string{"file", "memfd"}[r.Intn(2)], 1+r.Intn(3), 1+r.Intn(4))}
